@@ -233,7 +233,8 @@ def run_harness(args, stdin_text=None, timeout=1200, env=None, release=False, cw
                 allow_rc=(0,)):
     exe = build_harness(release=release)
     e = dict(os.environ)
-    e.setdefault("RUST_BACKTRACE", "0")
+    e["RUST_BACKTRACE"] = "0"        # anyhow captures a backtrace per error when this is on: 5x slower
+    e["RUST_LIB_BACKTRACE"] = "0"
     if env:
         e.update({k: str(v) for k, v in env.items()})
     try:
